@@ -104,6 +104,54 @@ func w0(ch *chain.Chain, c *c18case) *sim.World {
 	return &sim.World{Gen: c.Gen, Chain: ch, Model: sim.NewModel(c.Gen)}
 }
 
+// dropFailed removes the transactions whose result code in the reference digest is non-zero.
+// kept[block] lists the surviving tx indices (nil when nothing failed).
+func dropFailed(c *c18case, ref digest) (*c18case, map[int][]int) {
+	failed := map[string]bool{}
+	for _, p := range ref.Parts {
+		var b, t int
+		var rest string
+		if n, _ := fmt.Sscanf(p, "block%d.tx%d=%s", &b, &t, &rest); n == 3 && !strings.HasPrefix(rest, "code:0/") {
+			failed[fmt.Sprintf("%d.%d", b, t)] = true
+		}
+	}
+	if len(failed) == 0 {
+		return nil, nil
+	}
+	out := &c18case{Gen: c.Gen}
+	kept := map[int][]int{}
+	for bi, b := range c.Blocks {
+		nb := c18block{Ledger: b.Ledger, Faults: b.Faults}
+		for ti, tx := range b.Txs {
+			if !failed[fmt.Sprintf("%d.%d", bi, ti)] {
+				nb.Txs = append(nb.Txs, tx)
+				kept[bi] = append(kept[bi], ti)
+			}
+		}
+		out.Blocks = append(out.Blocks, nb)
+	}
+	return out, kept
+}
+
+// filterDigest renames the surviving transactions of the reference digest to their new positions.
+func filterDigest(ref digest, kept map[int][]int) digest {
+	var out digest
+	for _, p := range ref.Parts {
+		var b, t int
+		var rest string
+		if n, _ := fmt.Sscanf(p, "block%d.tx%d=%s", &b, &t, &rest); n == 3 {
+			for ni, oi := range kept[b] {
+				if oi == t {
+					out.Parts = append(out.Parts, fmt.Sprintf("block%d.tx%d=%s", b, ni, p[strings.IndexByte(p, '=')+1:]))
+				}
+			}
+			continue
+		}
+		out.Parts = append(out.Parts, p)
+	}
+	return out
+}
+
 func firstDiff(a, b digest) string {
 	for i := range a.Parts {
 		if i >= len(b.Parts) {
@@ -140,6 +188,13 @@ func genC18(rt *rapid.T, minTx int) (*c18case, *sim.World) {
 		}
 		ntx := rapid.IntRange(1, 4).Draw(rt, "ntx")
 		for i := 0; i < ntx; i++ {
+			if rapid.IntRange(0, 11).Draw(rt, "rollbackpattern") == 0 {
+				// a successful state change followed by a failing message in one transaction: the SDK discards both
+				a := g.AdminOp("rb/admin", 100, []string{"AddRemoteTokenMessenger", "RemoveRemoteTokenMessenger", "LinkTokenPair", "UnlinkTokenPair", "EnableAttester", "SetMaxBurnAmountPerMessage", "PauseBurningAndMinting", "UpdateMaxMessageBodySize"})
+				b := g.AdminOp("rb/fail", 0, []string{"UpdateOwner", "UpdatePauser"})
+				ops = append(ops, sim.Multi(a, b))
+				continue
+			}
 			ops = append(ops, mix.next(g))
 		}
 		// encode now so that the very same bytes are replayed
@@ -209,6 +264,18 @@ func c18check(c *c18case, unrelated *c18case, concurrent int) *Viol {
 			if d := firstDiff(ref, after); d != "" {
 				return viol("C18", 0, "replay after an unrelated history in the same process differs", "byte-identical", d)
 			}
+		}
+	}
+	// metamorphic: dropping the transactions that failed must change nothing (anything a rolled-back
+	// transaction leaves behind lives outside the store)
+	if slim, kept := dropFailed(c, ref); slim != nil {
+		sd, err := replayDigest(slim)
+		if err != nil {
+			return viol("C18", 0, "replay without the failed transactions failed", "completes", err)
+		}
+		want := filterDigest(ref, kept)
+		if d := firstDiff(want, sd); d != "" {
+			return viol("C18", 0, "the same history without its failed (rolled-back) transactions gives different results for the remaining ones", "byte-identical", d)
 		}
 	}
 	if concurrent > 0 {
